@@ -114,31 +114,35 @@ Proof.
 Qed.
 
 (* ---------------------------------------------------------------- rns primary pointers *)
-Lemma pstep_frame st op k : k <> pop_signer op -> aget sp_eqb (fst (pstep st op)) k = aget sp_eqb st k.
+(* account level: a message never writes a pointer of another account *)
+Lemma pstep_frame_acct st op k : acct k <> acct (pop_signer op) -> aget sp_eqb (fst (pstep st op)) k = aget sp_eqb st k.
 Proof.
-  destruct op as [s [nm|]]; cbn; intros H; [|reflexivity].
+  destruct op as [s [nm|] | s [|] [nm|]]; cbn; intros H; try reflexivity;
+    apply (aget_aset_other sp_eqb sp_eqb_spec); intros E; apply H; rewrite E; reflexivity.
+Qed.
+
+(* spelling level for MakePrimary: only the pointer under the signer's own address string *)
+Lemma pstep_frame_make st s parsed k : k <> s -> aget sp_eqb (fst (pstep st (PMake s parsed))) k = aget sp_eqb st k.
+Proof.
+  destruct parsed as [nm|]; cbn; intros H; [|reflexivity].
   apply (aget_aset_other sp_eqb sp_eqb_spec). exact H.
 Qed.
 
 Lemma pstep_fail_unchanged st op st' : pstep st op = (st', Fail) -> st' = st.
-Proof. destruct op as [s [nm|]]; cbn; intros H; [discriminate | injection H as <-; reflexivity]. Qed.
+Proof.
+  destruct op as [s [nm|] | s [|] [nm|]]; cbn; intros H; try discriminate; injection H as <-; reflexivity.
+Qed.
 
 Lemma prun_cons st op ops : prun st (op :: ops) = prun (fst (pstep st op)) ops.
 Proof. reflexivity. Qed.
-
-Lemma prun_frame ops : forall st k,
-  Forall (fun op => pop_signer op <> k) ops -> aget sp_eqb (prun st ops) k = aget sp_eqb st k.
-Proof.
-  induction ops as [|op ops IH]; intros st k HF; [reflexivity|].
-  inversion HF as [|? ? H1 H2]; subst. rewrite prun_cons, IH by exact H2. apply pstep_frame. intros E. apply H1. symmetry. exact E.
-Qed.
 
 Lemma prun_frame_acct ops st a :
   Forall (fun op => acct (pop_signer op) <> a) ops ->
   forall k, acct k = a -> aget sp_eqb (prun st ops) k = aget sp_eqb st k.
 Proof.
-  intros HF k Hk. apply prun_frame. eapply Forall_impl; [|exact HF].
-  intros op H E. apply H. rewrite E. exact Hk.
+  revert st. induction ops as [|op ops IH]; intros st HF k Hk; [reflexivity|].
+  inversion HF as [|? ? H1 H2]; subst. rewrite prun_cons, IH by (try exact H2; reflexivity).
+  apply pstep_frame_acct. intros E. apply H1. symmetry. exact E.
 Qed.
 
 (* ---------------------------------------------------------------- storage DeleteFile *)
@@ -373,7 +377,12 @@ Proof. intros. apply orun_owner_stable. assumption. Qed.
 Lemma make_primary_only_own_pointer_thm :
   forall st s parsed k, k <> s ->
     aget sp_eqb (fst (pstep st (PMake s parsed))) k = aget sp_eqb st k.
-Proof. intros st s parsed k H. apply (pstep_frame st (PMake s parsed) k). exact H. Qed.
+Proof. intros st s parsed k H. apply pstep_frame_make. exact H. Qed.
+
+Lemma rns_messages_touch_only_own_primary_pointer_thm :
+  forall st op k, acct k <> acct (pop_signer op) ->
+    aget sp_eqb (fst (pstep st op)) k = aget sp_eqb st k.
+Proof. exact pstep_frame_acct. Qed.
 
 Lemma storage_delete_only_own_files_thm :
   forall st s merkle start,
